@@ -24,3 +24,24 @@ pub assume_specification [core::cmp::Ordering::is_eq] (o: Ordering) -> (r: bool)
 pub assume_specification<F: FnOnce() -> Ordering> [core::cmp::Ordering::then_with] (o: Ordering, f: F) -> (r: Ordering)
     requires o == Ordering::Equal ==> f.requires(()),
     ensures o != Ordering::Equal ==> r == o, o == Ordering::Equal ==> f.ensures((), r);
+
+// capacity is a ghost attribute of a Vec value; only what the debug assertions in send_message/handle_data need is assumed
+pub uninterp spec fn vec_cap<T, A: Allocator>(v: &Vec<T, A>) -> usize;
+
+pub assume_specification<T, A: Allocator>[ Vec::<T, A>::capacity ](v: &Vec<T, A>) -> (r: usize)
+    ensures r == vec_cap(v);
+
+// mem::take leaves `Default::default()` behind; for a Vec that is an empty vector that has not allocated
+pub uninterp spec fn default_val<T>() -> T;
+
+pub assume_specification<T: Default>[ core::mem::take::<T> ](dest: &mut T) -> (r: T)
+    ensures r == *old(dest), *final(dest) == default_val::<T>();
+
+#[verifier::external_body]
+proof fn axiom_default_vec<T>()
+    ensures default_val::<Vec<T>>()@.len() == 0, vec_cap(&default_val::<Vec<T>>()) == 0,
+{
+}
+
+pub assume_specification<T>[ core::mem::replace::<T> ](dest: &mut T, src: T) -> (r: T)
+    ensures r == *old(dest), *final(dest) == src;
